@@ -25,7 +25,7 @@ SHRINK = 'greedy'
 SHRINK_RUNS = 6
 TIME_BUDGET = {'quick': 170, 'thorough': 1700}
 REQUIRED = {'quick': {'req:worker': 60, 'req:p_worker': 40, 'req:ctx_create': 40, 'req:ctx_delete': 30, 'req:worker_in_ctx': 30, 'cut:inside': 100, 'ctrl_step': 12, 'healthy_concurrent': 20, 'healthy_in_same_context': 60, 'server_close_on_none': 100},
-            'thorough': {'req:worker': 600, 'cut:inside': 1000, 'ctrl_step': 300}}
+            'thorough': {'req:worker': 600, 'cut:inside': 1000, 'ctrl_step': 120}}
 REQS = ['worker', 'p_worker', 'ctx_create', 'ctx_delete', 'worker_in_ctx']
 PROBE_GUARD = 25.0
 
